@@ -16,7 +16,7 @@ from harness import bootstrap  # noqa: F401
 from harness import c18_cli as C
 
 AUX = {"qha": "phonopy_qha", "convert": "phonopy_calc_convert", "bandplot": "phonopy_bandplot",
-       "propplot": "phonopy_propplot"}
+       "propplot": "phonopy_propplot", "vaspborn": "phonopy_vasp_born"}
 QHA_FILES = {"helmholtz-volume.dat", "helmholtz-volume_fitted.dat", "volume-temperature.dat",
              "thermal_expansion.dat", "gibbs-temperature.dat", "bulk_modulus-temperature.dat",
              "Cp-temperature.dat", "Cp-temperature_polyfit.dat", "gruneisen-temperature.dat",
@@ -83,7 +83,33 @@ def abstract(cmd, argv, d, sbase):
         info["file"] = f
         if ex(f):
             inp.add("thermal_properties.yaml")
+    elif cmd == "vaspborn":
+        pos = positional(argv, {"--dim", "--pa", "--tolerance"})
+        info["outcar"] = pos[0] if pos else "OUTCAR"
+        info["poscar"] = pos[1] if len(pos) > 1 else "POSCAR"
+        if ex(info["outcar"]):
+            inp.add("OUTCAR")
+        if ex(info["poscar"]):
+            inp.add("POSCAR")
     return inp, s, info
+
+
+def write_outcar(path, borns, epsilon):
+    """The two blocks of a VASP OUTCAR (LEPSILON run) that carry the dielectric tensor and Z*."""
+    with open(path, "w") as f:
+        f.write("   number of dos      NEDOS =    301   number of ions     NIONS = %6d\n\n" % len(borns))
+        f.write(" MACROSCOPIC STATIC DIELECTRIC TENSOR (including local field effects in DFT)\n")
+        f.write(" ------------------------------------------------------\n")
+        for v in epsilon:
+            f.write("  %18.12f %18.12f %18.12f\n" % tuple(v))
+        f.write(" ------------------------------------------------------\n\n")
+        f.write(" BORN EFFECTIVE CHARGES (in e, cummulative output)\n")
+        f.write(" -------------------------------------------------\n")
+        for i, z in enumerate(borns):
+            f.write(" ion %4d\n" % (i + 1))
+            for k, v in enumerate(z):
+                f.write("  %3d %18.12f %18.12f %18.12f\n" % ((k + 1,) + tuple(v)))
+        f.write("\n")
 
 
 def data_lines(stdout):
@@ -109,6 +135,8 @@ def abstract_outputs(cmd, argv, r, info):
     if cmd in ("bandplot", "propplot") and printed:
         out.add("stdout")
     if cmd == "qha" and "-b" in argv and "Bulk modulus:" in r["stdout"]:
+        out.add("stdout")
+    if cmd == "vaspborn" and "# epsilon and Z* of atoms" in r["stdout"]:
         out.add("stdout")
     return out
 
@@ -216,6 +244,20 @@ def replay(job, call, cmp, compare_text):
             cmp.close("CONVERTED:positions", dpos - np.rint(dpos), np.zeros_like(dpos), tol["frac"] + 1e-9)
             cmp.equal("CONVERTED:symbols", list(back.symbols), list(cell.symbols))
         shutil.rmtree(scratch, ignore_errors=True)
+    elif name == "vasp_born":
+        from phonopy.interface.vasp import get_born_OUTCAR
+
+        borns, eps, idx = get_born_OUTCAR(poscar_filename=os.path.join(ind, info["poscar"]),
+                                          outcar_filename=os.path.join(ind, info["outcar"]),
+                                          primitive_matrix=np.eye(3), supercell_matrix=np.eye(3, dtype="intc"),
+                                          symmetrize_tensors="--nost" not in argv and "--no-symmetrize-tensors" not in argv,
+                                          symprec=float(_opt(argv, "--tolerance", 1e-5)))
+        lines = [l for l in job["stdout"].splitlines() if l.strip()]
+        lines = lines[next(i for i, l in enumerate(lines) if l.startswith("# epsilon")):]  # (warnings precede)
+        cmp.checked.add("stdout")
+        cmp.equal("stdout:independent atoms", lines[0].split()[7:], [str(i + 1) for i in idx])
+        cmp.close("stdout:epsilon", [float(x) for x in lines[1].split()], np.ravel(eps), 0.6e-8)
+        cmp.close("stdout:born", [[float(x) for x in l.split()] for l in lines[2:]], np.reshape(borns, (-1, 9)), 0.6e-8)
     elif name == "gnuplot_band":
         rows = data_lines(job["stdout"]) or []
         factor = float(_opt(argv, "--factor", 1.0))
